@@ -61,6 +61,15 @@ fn main() {
     }
     let ctx = Ctx { tier, seed, workers, budget_s: if tier == Tier::Quick { 50.0 } else { 1500.0 } };
     match args[1].as_str() {
+        #[cfg(feature = "sched")]
+        "selftest" => {
+            let bad = harness::selftest::run();
+            for b in &bad {
+                eprintln!("MACHINERY-ERROR explorer self-test failed: {}", b);
+            }
+            println!("selftest: {}", if bad.is_empty() { "ok" } else { "FAILED" });
+            std::process::exit(if bad.is_empty() { 0 } else { 2 });
+        }
         "list" => {
             for id in props::ALL {
                 if let Some(d) = props::property(id, &ctx) {
@@ -84,6 +93,16 @@ fn main() {
                 def.scenarios.retain(|s| s.name.contains(o.as_str()));
             }
             eprintln!("{} tier={:?} seed={} workers={} source={}", id, tier, seed, workers, env!("CACHED_SRC_RESOLVED"));
+            #[cfg(feature = "sched")]
+            {
+                let bad = harness::selftest::run();
+                if !bad.is_empty() {
+                    for b in bad {
+                        eprintln!("MACHINERY-ERROR explorer self-test failed: {}", b);
+                    }
+                    std::process::exit(2);
+                }
+            }
             let run = props::run_property(def, &ctx);
             let kf = harness::report::load_known(&known);
             let code = run.finish(&evidence, &kf);
